@@ -25,7 +25,7 @@ ASSUMPTIONS = ['shift/scale relations are judged to 2 float32 ulp of |bkg|+|c| b
                'and only the final float32 cast differs',
                '3-sigma clipping iterated to its fixed point lowers the rms of Gaussian data to 0.985 s; the '
                'Gaussian clause is judged on the median of the maps with an 8-sigma sampling band']
-MIN_COUNTERS = {'reuse_pairs_compared': 2, 'runs_ok': 30, 'shift_relations': 5, 'scale_relations': 5, 'masked_pixels_checked': 50,
+MIN_COUNTERS = {'reuse_pairs_compared': 2, 'runs_ok': 30, 'shift_relations': 5, 'scale_relations': 5, 'scale_relations_far_from_one': 3, 'masked_pixels_checked': 50,
                 'far_pixels_checked': 1000, 'constant_images': 2, 'gauss_images': 1}
 BATCHES_PER_JOB = 4
 
@@ -106,6 +106,10 @@ def cases(seed, tier):
                     'nslice': nslice, 'mask': bool(rng.random() < 0.85),
                     'shift': float(rng.choice([-1, 1]) * 2.0 ** rng.integers(0, 13)),
                     'scale': float(rng.choice([-1, 1]) * 2.0 ** rng.integers(-3, 6))})
+        if i % 3 == 1:
+            # image units are arbitrary (nJy ... counts): scales far from one, still exact powers of two
+            out[-1]['scale'] = float(rng.choice([-1, 1]) * 2.0 ** int(rng.choice([-60, -40, -30, -20, 20, 30, 40])))
+            out[-1]['extreme_scale'] = True
     n_const = 8 if tier == 'quick' else 80
     for i in range(n_const):
         rows, cols = int(rng.integers(5, 120)), int(rng.integers(5, 120))
@@ -300,6 +304,8 @@ def run(case):
                     o.worst('scale_bkg_err_ulp', float(eb.max()))
                     o.worst('scale_rms_err_ulp', float(er.max()))
                     o.count('scale_relations')
+                    if case.get('extreme_scale'):
+                        o.count('scale_relations_far_from_one')
                     if eb.max() > 2 or er.max() > 2:
                         o.violate('scale_relation', {'image': case['image'], 'config': base, 'scale': kk,
                                                      'max_bkg_err_ulp': float(eb.max()), 'max_rms_err_ulp': float(er.max())})
